@@ -659,7 +659,7 @@ func c11hCheck(sc *c11hScenario, obs *c11hObs, r *vrt.Result, timeConsistent fun
 				// reply carries when it races the upstream's response is C02/C03's subject
 				timerDue := f.rtoken() == "" && f.AtMs >= int64(sc.RouteTimeoutMs)
 				if inflight && !success && allOK && noTimer && !timerDue {
-					report(fmt.Sprintf("request in flight at the signal answered with an error although its upstream answers OK: %s status=%d phase-at-signal=%s deviations=%d%s", proto, c03hStatusClass(f.Status, &sc.hhScenario), obs.PhaseSig[i], r.Cost, closedBy),
+					report(fmt.Sprintf("request in flight at the signal answered with an error although its upstream answers OK: %s status=%d phase-at-signal=%s deviations=%d%s", proto, c11hStatusClass(f.Status, sc), obs.PhaseSig[i], r.Cost, closedBy),
 						fmt.Sprintf("request %s: %s; log=%v", rq.Token, f.String(), obs.hh.Log))
 				}
 				continue
@@ -687,6 +687,19 @@ func c11hCheck(sc *c11hScenario, obs *c11hObs, r *vrt.Result, timeConsistent fun
 			}
 		}
 	}
+}
+
+// c11hStatusClass keeps scripted statuses (which carry the request index) out of finding keys.
+func c11hStatusClass(st int, sc *c11hScenario) int {
+	for i := range sc.Requests {
+		if st == hhOKStatus(i) {
+			return 200
+		}
+		if st == hhErrStatus(i) {
+			return 520
+		}
+	}
+	return st
 }
 
 // c11hOutcome: the observable outcome class of one execution.
